@@ -101,7 +101,7 @@ def check_va(case):
     if not hz0 >= 0:
         raise Fail("horizontal distance is negative", observed=r0)
     r1 = sv.va_conv(z, sd, hi, ht)
-    if r1[2] != hz0:
+    if not abs(r1[2] - hz0) <= 1e-12 * sd:
         raise Fail("instrument / target heights changed the horizontal distance", expected=hz0, observed=r1[2])
     if not abs(r1[3] - (dh0 + hi - ht)) <= 1e-12 * (abs(dh0) + abs(hi) + abs(ht)) + 1e-15:
         raise Fail("instrument / target heights do not shift the height difference by hi - ht", expected=dh0 + hi - ht, observed=r1[3])
@@ -196,11 +196,13 @@ def check_dispersion(case):
     if dp is None:
         # central differences with every sample inside the quantified carrier range [0.4, 1.6] um
         hh = 1e-3 * lam
-        c = min(max(lam, 0.4 + 2 * hh), 1.6 - 2 * hh)
         f = lambda x: sv.phase_refractivity(x, T, P, e, co2)       # noqa
-        d1 = (-f(c + 2 * hh) + 8 * f(c + hh) - 8 * f(c - hh) + f(c - 2 * hh)) / (12 * hh)
-        d2 = (-f(c + 2 * hh) + 16 * f(c + hh) - 30 * f(c) + 16 * f(c - hh) - f(c - 2 * hh)) / (12 * hh * hh)
-        dp = d1 + d2 * (lam - c)              # first-order transfer from the stencil centre to lam
+        if lam - 2 * hh < 0.4:                # fourth-order forward differences
+            dp = (-25 * f(lam) + 48 * f(lam + hh) - 36 * f(lam + 2 * hh) + 16 * f(lam + 3 * hh) - 3 * f(lam + 4 * hh)) / (12 * hh)
+        elif lam + 2 * hh > 1.6:              # fourth-order backward differences
+            dp = (25 * f(lam) - 48 * f(lam - hh) + 36 * f(lam - 2 * hh) - 16 * f(lam - 3 * hh) + 3 * f(lam - 4 * hh)) / (12 * hh)
+        else:
+            dp = (-f(lam + 2 * hh) + 8 * f(lam + hh) - 8 * f(lam - hh) + f(lam - 2 * hh)) / (12 * hh)
         tol = 1e-6
     want = p - lam * dp          # n_g = n_p + sigma dn_p/dsigma = n_p - lambda dn_p/dlambda
     rel = abs(g - want) / abs(want)
